@@ -58,6 +58,9 @@ class Contract:
     def replay(self, values):
         return "no-replay"
 
+    def before(self, I, inp):
+        """operations performed before the call under verification (a symbolic history prefix)"""
+
     def candidates(self):
         """small native input domain (model values) searched when a counter-model does not replay"""
         return iter(())
@@ -161,9 +164,10 @@ def explore_contract(c, E=None, mutate=None):
                 ok = c.frame_ok(I2, inp, obj, name)
                 if ok is not True:
                     I2.ctx.require(ok if ok is not False else z3.BoolVal(False), f"frame: writes {ops.type_name(obj)}.{name}", kind="FRAME")
-            E.frame_hook = hook
             E.current_ctx = ctx
             try:
+                c.before(I, inp)          # optional history prefix (earlier calls on the same objects); not frame-checked
+                E.frame_hook = hook
                 r = I.call_function(finfo, inp.get("self"), inp.get("args", []), inp.get("kwargs", {}))
             except PyRaise as p:
                 E.frame_hook = None
